@@ -4,7 +4,7 @@
                packet counts depend on the scheduler, the model's bound dominates what it did);
    spec_case : what the implementation did satisfies the property's specification, judged
                without the model. *)
-From Sdns Require Export Common.Base Gen.C12 C12.Model C12.ModelDS C12.Skeleton.
+From Sdns Require Export Common.Base Gen.C12 C12.Model C12.ModelDS C12.ModelN3 C12.Skeleton.
 Open Scope N_scope.
 
 Inductive case :=
@@ -52,6 +52,11 @@ Inductive case :=
      the second phase confirmed; the ledger's DS-digest counter, exhaustion bits (candidates, digests), first rejection *)
 | CaseDS (mode K D : N) (dsl : list (bool * bool * list (nat * bool))) (korder : list nat) (ordered : bool)
          (verdict ekind : N) (matched : list nat) (digests exh first : N)
+  (* the NSEC3 denial verifiers (VerifyNameError / VerifyNODATA / VerifyDelegation ...ForZoneWithWork) under the real work
+     adapter, the validations of one request tree in order on one ledger and one hash memo ([um]: the context carries
+     one): per validation its shape in processing order (ModelN3.v); per validation the verdict 0 ok / 1 work error of
+     [kind] / 2 ordinary failure; the ledger's NSEC3-hash counter, exhaustion bit, first rejection *)
+| CaseN3 (mode H : N) (um : bool) (proofs : list n3proof) (verdicts : list (N * N)) (hashes exh first : N)
   (* the forwarder against scripted upstreams, one behaviour per configured upstream in order — 0: answers; 1: TC=1 over
      UDP, answers over TCP; 2: TC=1 over UDP, SERVFAIL over TCP; 3: SERVFAIL —: datagrams + TCP queries the upstreams
      received, the ledger's outbound counter, the reply (0 answer / 1 policy SERVFAIL with the work EDE / 2 plain SERVFAIL) *)
@@ -149,6 +154,7 @@ Definition check_case (c : case) : bool :=
         end && forallb (fun g => (g <=? 1)%nat) (gens_of false 0 [] evs)))
   | CaseDS mode K D dsl korder ordered verdict ekind matched digests exh first =>
       ds_check mode K D dsl korder ordered verdict ekind matched digests exh first
+  | CaseN3 mode H um proofs verdicts hashes exh first => n3_check mode H um proofs verdicts hashes exh first
   | CaseFwd mode max_out script packets led_out reply =>
       (* the forwarder is sequential: the model computes exactly what the upstreams received and what the client got *)
       let pol := mk_T_RecursionWorkPolicy mode max_out 32 4 8 32 32 32 32 in
@@ -256,6 +262,7 @@ Definition spec_case (c : case) : bool :=
                             (n <=? 32)%nat && (ch <=? 10)%nat && (dn <=? 10)%nat
                         | _ => true
                         end) evs
+  | CaseN3 mode H um proofs verdicts hashes exh first => n3_spec mode H um proofs verdicts hashes exh first
   | CaseFwd mode max_out script packets led_out reply =>
       (* at most two transport attempts per upstream; enforce: never more than the outbound budget, and a request that ran
          into it is answered with the policy SERVFAIL; shadow / off: the budget changes nothing *)
